@@ -52,7 +52,8 @@ RULES = {
             "DescriptorLeak", "FailureNotReported", "RunningAfterCreateFailed", "Crash", "StackOverflow", "Timeout"},
 }
 HARNESS_RULES = {"HarnessBadEvent", "HarnessNestedCall", "HarnessFdNotLowestFree", "HarnessPwriteResult",
-                 "HarnessFileModelMismatch", "UnknownEvent", "ChainOrderBroken", "HarnessEofCount", "HarnessBadAcq"}
+                 "HarnessFileModelMismatch", "UnknownEvent", "ChainOrderBroken", "HarnessEofCount", "HarnessBadAcq",
+                 "HarnessPacketNotCellAligned"}
 TYPES = ["u8", "u16", "i8", "i16", "f32", "u10", "u12", "u14"]
 BPP = tiffread.BPP
 METAS = ['{"k":1}', '{"hello":"world","n":[1,2,3]}', '{"a":{"b":"c d"},"e":1.5}', '{}', '{"list":[{"x":1},{"x":2}],"s":"\\u00e9"}']
@@ -739,7 +740,7 @@ def replay_stage(chk, prop, exe, bdir, thorough, rng, judge):
     """(2)+(3) for TLC-exported histories: replay, compare (drift), judge traces and files by the Obs specs."""
     exports = []
     if prop == "C14":
-        exports.append(("RawWriter", "ex_raw", raw_consts(NDev=1, MaxFaultAt=0, NScripts=7 if thorough else 5, MaxCycles=3 if thorough else 2), raw_edge_to_case))
+        exports.append(("RawWriter", "ex_raw", raw_consts(NDev=1, MaxFaultAt=0, NScripts=7 if thorough else 5, MaxCycles=3 if thorough else 2, MaxAppends=3), raw_edge_to_case))
     elif prop == "C15":
         # (scripts 1..3 are partial writes the write-all loop absorbs; giving up after three empty writes is a failure: C16)
         exports.append(("TiffWriter", "ex_tiff", tiff_consts(NDev=1, Real=True, Ghost=False, NKinds=3 if thorough else 2, NScripts=3,
@@ -828,7 +829,7 @@ def main(prop, tier):
         for kind, other in (("raw", "tiff"), ("tiff", "raw"), ("tiff-json", "tiff"), ("trash", "raw")):
             for name, devs, ops in reference_histories(kind, other):
                 cid += 1
-                refs.append((name, make_case(cid, devs, ops, unit=104 if kind == "raw" else 0)))
+                refs.append((name, make_case(cid, devs, ops, unit=8)))
         ref_runs = run_cases(exe, [c for _, c in refs], bdir, "ref")
         counts = {}
         for cs, trace, wd in ref_runs:
